@@ -14,12 +14,14 @@ Oracles (none calls the function it judges):
   solves the dual with cvxopt) whose optimal marginals are turned into an achieved lower bound, and the channel-fidelity
   program written with the Loewner-order constraint whose dual variable yields an achieved upper bound.
 
-Tolerances (calibrated on the unchanged tree and on the repaired channel_fidelity, seeds 1-5; see the final report):
-  shortcuts of the cb trace norm (value 1, CP branch): 1e-9 * scale;
-  cvxopt SDP values (cb trace norm, diamond distance, fidelity of separability): 1e-5 * max(1, ||J||_1) — largest
-  residual seen 3e-8 * ||J||_1;
-  SCS values (channel_fidelity, default eps): 5e-4 for equalities with closed forms / independent program, 2e-3 for
-  order relations against certified bounds.
+Tolerances (calibrated on seeds 1-3 of the quick tier: unchanged tree for the cb norms, channel_fidelity with the two
+candidate repairs applied, because the unrepaired function is wrong on almost every input):
+  shortcuts of the cb trace norm (value 1, CP branch): 1e-9 * scale (pure numpy);
+  picos/cvxopt SDP values (cb trace norm, diamond distance, cb spectral norm, fidelity of separability):
+  1e-5 * max(1, ||J||_1); largest residual seen 2.2e-8 * scale against the independent primal, 1.5e-9 against the
+  unitary closed form, 1.4e-9 for the fidelity of separability;
+  SCS values (channel_fidelity, default eps, status 'optimal' only): 1e-4 for equalities (closed form delta, value 1,
+  symmetry, independent program), 2e-4 for order relations against achieved bounds; largest residual seen 4.3e-7.
 """
 
 from __future__ import annotations
@@ -55,7 +57,7 @@ ASSUMPTIONS = [
     "Choi matrices are J = sum_ij E_ij (x) Phi(E_ij), input system first (agrees with toqito.channel_ops.kraus_to_choi); input and output dimension are equal (the functions infer d = sqrt(N))",
     "diamond_distance returns the cb trace norm of the difference (range [0,2] on channels), as its code and pinned tests do; the docstring sentence 'half of' is not asserted",
     "channel_fidelity is the root fidelity inf_rho ||sqrt(.)sqrt(.)||_1 (its docstring); reference fidelity ref.fidelity uses the same convention",
-    "solver noise bounds the visible defect size: 1e-5*max(1,||J||_1) for the picos/cvxopt values, 5e-4 (equalities) / 2e-3 (order relations) for the SCS-valued channel_fidelity",
+    "solver noise bounds the visible defect size: 1e-5*max(1,||J||_1) for the picos/cvxopt values, 1e-4 (equalities) / 2e-4 (order relations) for the SCS-valued channel_fidelity",
     "cvxpy 'Solution may be inaccurate' warnings, solver exceptions and per-case time limits are inconclusive, never violations and never passes",
     "the independent CLARABEL/SCS programs are used as oracles only when they report status 'optimal'; their achieved-state certificates are checked with numpy",
     "channel_fidelity pairs with true value 0 in d >= 4 are not generated (SCS needs minutes and stops at its iteration cap); d = 4, 5 use unitary pairs with delta > 0",
@@ -67,8 +69,8 @@ KF_SIG = "cbtn=trace_norm_of_dual_identity"
 
 TOL_EXACT = 1e-9
 TOL_CVXOPT = 1e-5
-TOL_SCS_EQ = 5e-4
-TOL_SCS_ORD = 2e-3
+TOL_SCS_EQ = 1e-4
+TOL_SCS_ORD = 2e-4
 
 _DIM23 = st.sampled_from([2, 2, 3])
 _PSI_SEEDS = st.lists(gen.SEED, min_size=3, max_size=3)
@@ -427,8 +429,9 @@ def check_cbtn_channel(case):
     d = case["d"]
     j = _chan_choi(case["c"], d)
     val = _cbtn(j)
-    if abs(val - 1) > TOL_EXACT:
-        raise Violation(f"cb trace norm of a channel (d={d}, {case['c']['kind']}) = {val:.12g}, expected 1", _cb_signature(val, j, d, "cbtn:channel_not_1"))
+    # NB: no known-finding signature here.  On the unchanged tree channels never reach the CP branch (the
+    # is_quantum_channel shortcut answers 1), so a channel whose norm is not 1 is a different defect.
+    req(abs(val - 1) <= TOL_EXACT, f"cb trace norm of a channel (d={d}, {case['c']['kind']}) = {val:.12g}, expected 1", "cbtn:channel_not_1")
 
 
 def nt_chan(case):
@@ -815,6 +818,6 @@ SUBCHECKS = [
     SubCheck("cf_equal_channels", check_cf_equal, lambda: _chan_case(dims=(2, 2, 3)), lambda c: f"cf_equal:d={c['d']}:{c['c']['kind']}", quick=32, thorough=320, case_timeout=90),
     SubCheck("cf_unitary_closed_form", check_cf_unitary, _cf_unitary_case, nt_unitary_pair, quick=64, thorough=640, case_timeout=90),
     SubCheck("cf_every_dimension", check_cf_unitary, None, lambda c: f"cf_dim:d={c['d']}", cases=_cf_dim_cases, case_timeout=90, shards=4),
-    SubCheck("fos_pure_product", check_fos_product, _fos_case, nt_fos, quick=64, thorough=640, case_timeout=60, shards=8),
+    SubCheck("fos_pure_product", check_fos_product, _fos_case, nt_fos, quick=64, thorough=640, case_timeout=30, shards=8),
     SubCheck("fos_rejects", check_fos_rejects, _fos_reject_case, nt_fos_reject, quick=200, thorough=2000, case_timeout=60, shards=4),
 ]
